@@ -467,7 +467,7 @@ func runC17(r *vf.Run) {
 		}
 		spec.Files = append(spec.Files, f)
 	}
-	nh := r.Pick(160, 1600)
+	nh := r.Pick(500, 4000)
 	var all []c17History
 	// regression block: the three histories of the repaired defects
 	all = append(all,
